@@ -10,7 +10,7 @@ echo "| change | summary | caught by (rc=1 with VIOLATION) | not caught by |" >>
 echo "|--------|---------|--------------------------------|---------------|" >> $out
 for d in seeded/C*/${MUT_GLOB:-*}; do
   id=$(basename $(dirname $d)); m=$(basename $d)
-  checks="$id ${also[$id]}"
+  checks="$id ${also[$id]}"; [ -n "$OWN_ONLY" ] && checks="$id"
   res=$(tools/try_mutant.sh $d/patch.diff $tier $checks 2>&1)
   caught=$(echo "$res" | grep 'rc=1' | sed 's/== \(C[0-9]*\) .*/\1/' | tr '\n' ' ')
   missed=$(echo "$res" | grep -v 'rc=1' | grep '^== ' | sed 's/== \(C[0-9]*\) rc=\([0-9]*\).*/\1(rc=\2)/' | tr '\n' ' ')
